@@ -920,4 +920,69 @@ Proof.
     + right. rewrite rev_app_distr. simpl rev. rewrite flat_map_app. simpl flat_map. rewrite app_nil_r.
       apply OrdL_cons. exists (flat_map ib Fs), (ib a). repeat split; auto.
 Qed.
+
+(* the "else" branch with two aligned partial children *)
+Lemma B6_complete W1 W3 (Fs : list item) a b :
+  T' = W1 ++ (a :: Fs ++ [b]) ++ W3 -> Forall (fun x => ist x = SEmpty) (W1 ++ W3) ->
+  Forall (fun x => ist x = SFull) Fs -> ist a = SPartA -> ist b = SPartA ->
+  zeros_ones (wd v a) = true -> ones_zeros (wd v b) = true ->
+  Ord (Node KP (map ic (filter (isS SEmpty) T) ++
+                [new_node KQ (simplify v true (nth 0 (map ic (filter (isS SPartA) T)) (Leaf [])) ++
+                              match map ic (filter (isS SFull) T) with [] => [] | _ => [new_node KP (map ic (filter (isS SFull) T))] end ++
+                              simplify v false (reverse (nth 1 (map ic (filter (isS SPartA) T)) (Leaf []))))]))
+      (flat_map ib T').
+Proof.
+  intros ET' HE HF Ha Hb Hza Hzb. set (run := a :: Fs ++ [b]) in *.
+  assert (HGr : Forall (GoodItem v) run /\ Forall (GoodItem v) (W1 ++ W3)).
+  { rewrite ET' in HG'. apply Forall_app in HG'. destruct HG' as [G1 G2]. apply Forall_app in G2. destruct G2 as [G2 G3].
+    split; [exact G2|apply Forall_app; auto]. }
+  destruct HGr as [HGrun HGW].
+  assert (HGa : GoodItem v a) by now inversion HGrun.
+  assert (HGFb : Forall (GoodItem v) Fs /\ GoodItem v b).
+  { inversion HGrun as [|? ? _ H]; subst. apply Forall_app in H. destruct H as [H1 H2]. inversion H2; auto. }
+  destruct HGFb as [HGF HGb].
+  assert (HrunE : filter (isS SEmpty) run = []).
+  { unfold run. rewrite (filter_isS_cons_ne SEmpty SPartA a _ Ha) by discriminate.
+    rewrite filter_app, (filter_isS_cons_ne SEmpty SPartA b [] Hb) by discriminate.
+    now rewrite (filter_isS_all SFull SEmpty Fs HF). }
+  assert (HrunF : filter (isS SFull) run = Fs).
+  { unfold run. rewrite (filter_isS_cons_ne SFull SPartA a _ Ha) by discriminate.
+    rewrite filter_app, (filter_isS_cons_ne SFull SPartA b [] Hb) by discriminate.
+    rewrite (filter_isS_all SFull SFull Fs HF). simpl. now rewrite app_nil_r. }
+  assert (HrunPA : filter (isS SPartA) run = [a; b]).
+  { unfold run. rewrite (filter_isS_cons_eq SPartA a _ Ha).
+    rewrite filter_app, (filter_isS_cons_eq SPartA b [] Hb). now rewrite (filter_isS_all SFull SPartA Fs HF). }
+  pose proof (set_perm SFull W1 run W3 ltac:(discriminate) ET' HE) as PF. rewrite HrunF in PF.
+  pose proof (set_perm SPartA W1 run W3 ltac:(discriminate) ET' HE) as PPA. rewrite HrunPA in PPA.
+  set (setF := map ic (filter (isS SFull) T)).
+  assert (HsetF : Permutation setF (map ic Fs)) by (apply Permutation_map; exact PF).
+  set (fullp := match setF with [] => [] | _ => [new_node KP setF] end).
+  assert (Hfullp : OrdL fullp (flat_map ib Fs) /\ rev fullp = fullp).
+  { unfold fullp. destruct setF as [|f r] eqn:EF.
+    - apply Permutation_nil in HsetF. destruct Fs; [|discriminate]. split; [now apply OrdL_nil|reflexivity].
+    - split; [|reflexivity]. apply OrdL_one. apply (PF_frontier v Fs (f :: r)); auto. discriminate. }
+  destruct Hfullp as [Hfp Hfrev].
+  destruct (PA_pieces v a HGa Ha) as [Hafw Habw]. destruct (PA_pieces v b HGb Hb) as [Hbfw Hbbw].
+  destruct (PA_pieces_rev v a HGa Ha) as [Harfw Harbw]. destruct (PA_pieces_rev v b HGb Hb) as [Hbrfw Hbrbw].
+  rewrite ET'. apply (run_frontier v); [exact HGW|now apply (setE_perm W1 run W3)|].
+  assert (Hrun_o : flat_map ib run = ib a ++ flat_map ib Fs ++ ib b).
+  { unfold run. simpl. rewrite flat_map_app. simpl. now rewrite app_nil_r. }
+  rewrite Hrun_o.
+  apply Permutation_sym, Permutation_length_2_inv in PPA. destruct PPA as [PPA|PPA]; rewrite PPA; simpl nth.
+  - (* the stored order of the two partial children is the one of the frontier: read forwards *)
+    assert (Hne : simplify v true (ic a) ++ fullp ++ simplify v false (reverse (ic b)) <> []).
+    { intros E. apply app_eq_nil in E. destruct E as [E _]. specialize (Hafw Hza). rewrite E in Hafw.
+      apply OrdL_nil in Hafw. destruct HGa as (Hp & _ & Ho & _). exact (Ord_nonempty _ _ Hp Ho Hafw). }
+    apply Ord_new_node; [exact Hne|]. apply Ord_Q. left.
+    apply OrdL_app. exists (ib a), (flat_map ib Fs ++ ib b). repeat split; auto.
+    apply OrdL_app. exists (flat_map ib Fs), (ib b). repeat split; auto.
+  - (* the other way round: read backwards *)
+    assert (Hne : simplify v true (ic b) ++ fullp ++ simplify v false (reverse (ic a)) <> []).
+    { intros E. apply app_eq_nil in E. destruct E as [E _]. specialize (Hbbw Hzb). rewrite E in Hbbw.
+      apply OrdL_nil in Hbbw. destruct HGb as (Hp & _ & Ho & _). exact (Ord_nonempty _ _ Hp Ho Hbbw). }
+    apply Ord_new_node; [exact Hne|]. apply Ord_Q. right.
+    rewrite !rev_app_distr, Hfrev, <- app_assoc.
+    apply OrdL_app. exists (ib a), (flat_map ib Fs ++ ib b). repeat split; auto.
+    apply OrdL_app. exists (flat_map ib Fs), (ib b). repeat split; auto.
+Qed.
 End PCase.
